@@ -7,6 +7,8 @@ CONSTANTS
   LensKind = "one"
   WithReload = TRUE
   ReloadBumpsVersion = FALSE
+  WithHideKeep = FALSE
+  Follow = FALSE
   WithScroll = FALSE
   DelayedSetsVersion <- TreeDelayedSetsVersion
 SPECIFICATION Spec
